@@ -45,6 +45,8 @@ TOPOLOGIES = [
     ('stacks: slide+hinge root, 3-hinge child (non-orthogonal axes, offset anchors)',
      [dict(parent=-1, joints=('s', 'h')), dict(parent=0, joints=('h', 'h', 'h'))], False),
 ]
+TOPOLOGIES.append(('forest listing world-attached trees BEFORE a free-floating one (q index != qd index for later links)',
+                   [dict(parent=-1, joints=H), dict(parent=0, joints=S), dict(parent=-1, joints=F), dict(parent=2, joints=H)], True))
 TOPOLOGIES.append(('mixed stacks: hinge+slide root, slide+hinge+slide child',
                    [dict(parent=-1, joints=('h', 's')), dict(parent=0, joints=('s', 'h', 's'))], False))
 THOROUGH = [
